@@ -31,13 +31,17 @@ clean:
 
 -include $(wildcard $(OUT)/*.d)
 
-# ---- multi-variant SEQ engines: one object per policy variant (parallel compilation), one binary
-SEQ_LIST_V = 0 1 2 3 4 5 6 7 8
-$(OUT)/seq_list.v%.o: engines/seq_list.cpp
-	@mkdir -p $(OUT)
-	$(CXX) -std=c++11 $(COMMON) -DSEQ_VARIANT=$* -DVERIF_SECONDARY_TU -c -o $@ $<
-$(OUT)/seq_list.main.o: engines/seq_list.cpp
-	@mkdir -p $(OUT)
-	$(CXX) -std=c++11 $(COMMON) -DSEQ_MAIN -c -o $@ $<
-$(OUT)/seq_list: $(OUT)/seq_list.main.o $(addprefix $(OUT)/seq_list.v,$(addsuffix .o,$(SEQ_LIST_V)))
-	$(CXX) $(SAN) -o $@ $^
+# ---- multi-variant SEQ engines: one object per policy variant (parallel compilation), one binary per engine
+# $(1) = engine name, $(2) = variant numbers
+define MULTI
+$$(OUT)/$(1).v%.o: engines/$(1).cpp
+	@mkdir -p $$(OUT)
+	$$(CXX) -std=c++11 $$(COMMON) -DSEQ_VARIANT=$$* -DVERIF_SECONDARY_TU -c -o $$@ $$<
+$$(OUT)/$(1).main.o: engines/$(1).cpp
+	@mkdir -p $$(OUT)
+	$$(CXX) -std=c++11 $$(COMMON) -DSEQ_MAIN -c -o $$@ $$<
+$$(OUT)/$(1): $$(OUT)/$(1).main.o $$(addprefix $$(OUT)/$(1).v,$$(addsuffix .o,$(2)))
+	$$(CXX) $$(SAN) -o $$@ $$^
+endef
+$(eval $(call MULTI,seq_list,0 1 2 3 4 5 6 7 8))
+$(eval $(call MULTI,seq_queue,0 1 2 3 4 5 6))
